@@ -4,6 +4,7 @@ import Dyce.HistModel
 import Dyce.OrderStatModel
 import Dyce.PoolCtorModel
 import Dyce.AppearModel
+import Dyce.HistOpsModel
 /-! Line protocol over the executable model (import-free, so it links as a `lean_exe`).
 Every op line is `OPCODE` followed by space-separated integers; lists are length-prefixed. -/
 namespace Dyce.Driver
@@ -206,6 +207,87 @@ def opAPPEAR : P String := do
   let r := appearances dice o
   pure (showHistT (r.map fun kc => ((kc.1 : Int), kc.2)))
 
+/-- all entries, zero counts included -/
+def showHistAll (h : Hist Int) : String :=
+  "ok " ++ " ".intercalate (h.map fun oc => toString oc.1 ++ ":" ++ toString oc.2) ++ " total=" ++ toString (total h)
+
+/-- raw constructor items: `len (outcome count)*` with possibly negative counts -/
+def rawItems : P (List (Int × Int)) := listOf (do let o ← tok; let c ← tok; pure (o, c))
+
+/-- `CTOR items` : `H(items)`: negative count → ValueError; else sort + accumulate -/
+def opCTOR : P String := do
+  let items ← rawItems
+  if items.any (fun oc => decide (oc.2 < 0)) then pure "err ValueError" else
+  pure (showHistAll (ofItems leI (items.map fun oc => (oc.1, oc.2.toNat))))
+
+def opLT : P String := do
+  let h ← hist
+  pure (showHistAll (lowestTerms leI h))
+
+def opEQ : P String := do
+  let a ← hist
+  let b ← hist
+  pure ("ok eq=" ++ toString (eqH leI a b) ++ " hasheq=" ++ toString (decide (hashKey leI a = hashKey leI b)))
+
+def opDRAW : P String := do
+  let h ← hist
+  let req ← rawItems
+  match drawH leI h req with
+  | .error .notInDeck => pure "err ValueError notInDeck"
+  | .error .negative => pure "err ValueError negative"
+  | .ok r => pure (showHistAll r)
+
+def opACC : P String := do
+  let a ← hist
+  let b ← hist
+  pure (showHistAll (accumulate leI a b))
+
+def opZFILL : P String := do
+  let h ← hist
+  let outs ← listOf tok
+  pure (showHistAll (zeroFill leI h outs))
+
+def opREMOVE : P String := do
+  let h ← hist
+  let o ← tok
+  pure (showHistAll (removeH leI h o))
+
+/-- `PEQ dice hist` : `P(*dice) == h`, i.e. `p.h() == h` -/
+def opPEQ : P String := do
+  let dice ← listOf hist
+  let b ← hist
+  let a := sumH leI 0 (· + ·) dice
+  pure ("ok eq=" ++ toString (eqH leI a b) ++ " hasheq=" ++ toString (decide (hashKey leI a = hashKey leI b)))
+
+/-- `DRAWSEQ hist k req₁ … req_k` : successive draws from one deck; a rejected draw leaves the deck as it was -/
+def opDRAWSEQ : P String := do
+  let h ← hist
+  let reqs ← listOf rawItems
+  let step (st : Hist Int × List String) (req : List (Int × Int)) : Hist Int × List String :=
+    match drawH leI st.1 req with
+    | .error .notInDeck => (st.1, st.2 ++ ["err ValueError"])
+    | .error .negative => (st.1, st.2 ++ ["err ValueError"])
+    | .ok r => (r, st.2 ++ [showHistAll r])
+  pure (" | ".intercalate (reqs.foldl step (h, [])).2)
+
+def ratOf (n d : Int) : Rat := (n : Rat) / (d : Rat)
+def showRat (q : Rat) : String := toString q.num ++ "/" ++ toString q.den
+
+/-- histogram with rational outcomes: `len (num den count)*` -/
+def ratHist : P (Hist Rat) := listOf (do let n ← tok; let d ← tok; let c ← nat; pure (ratOf n d, c))
+
+/-- `STATS ratHist muFlag muNum muDen` -/
+def opSTATS : P String := do
+  let h ← ratHist
+  let f ← tok
+  let mn ← tok
+  let md ← tok
+  let mu : Option Rat := if f = 1 then some (ratOf mn md) else none
+  let dist := distribution h
+  pure ("ok mean=" ++ showRat (meanH h) ++ " var=" ++ showRat (varianceH h mu) ++ " dist="
+    ++ ",".intercalate (dist.map fun op => showRat op.1 ++ "@" ++ showRat op.2)
+    ++ " sum=" ++ showRat ((dist.map Prod.snd).sum))
+
 def dispatch (op : String) : P String :=
   match op with
   | "RWC" => opRWC
@@ -214,6 +296,16 @@ def dispatch (op : String) : P String :=
   | "MAP" => opMAP
   | "UMAP" => opUMAP
   | "MATMUL" => opMATMUL
+  | "CTOR" => opCTOR
+  | "LT" => opLT
+  | "EQ" => opEQ
+  | "DRAW" => opDRAW
+  | "DRAWSEQ" => opDRAWSEQ
+  | "PEQ" => opPEQ
+  | "ACC" => opACC
+  | "ZFILL" => opZFILL
+  | "REMOVE" => opREMOVE
+  | "STATS" => opSTATS
   | "OSTAT" => opOSTAT
   | "EXK" => opEXK
   | "APPEAR" => opAPPEAR
